@@ -376,6 +376,43 @@ class EofRun:
         return True
 
 
+def _descends_into_argument(repo: Repo, qual: str) -> bool:
+    """A self-recursive function in which every recursive call is handed a *part* of one of the
+    function's own parameters: a variable of a ``for`` loop / comprehension over an expression
+    rooted at a parameter, possibly through ``.children(...)`` or an attribute.  Such a function
+    walks a finite structure (the parsed tree) downwards; it is not driven by the input text."""
+    try:
+        f = repo.func(qual)
+    except Exception:  # noqa: BLE001
+        return False
+    params = set(f.params()) - {"self", "cls"}
+    parts: set[str] = set()
+    changed = True
+    while changed:
+        changed = False
+        for n in ast.walk(f.node):
+            gens = []
+            if isinstance(n, (ast.For, ast.AsyncFor)):
+                gens = [(n.target, n.iter)]
+            elif isinstance(n, (ast.ListComp, ast.GeneratorExp, ast.SetComp, ast.DictComp)):
+                gens = [(g.target, g.iter) for g in n.generators]
+            for tg, it in gens:
+                roots = names_in(it)
+                if roots & (params | parts):
+                    for nm in names_in(tg):
+                        if nm not in parts:
+                            parts.add(nm)
+                            changed = True
+    rec = [c for c in ast.walk(f.node) if isinstance(c, ast.Call) and (is_name(c.func, f.name) or (isinstance(c.func, ast.Attribute) and c.func.attr == f.name and isinstance(c.func.value, ast.Name) and c.func.value.id in ("self", "cls")))]
+    if not rec:
+        return False
+    for c in rec:
+        args = list(c.args) + [k.value for k in c.keywords]
+        if not any(names_in(a) & parts for a in args):
+            return False
+    return True
+
+
 def run(repo: Repo) -> Result:
     res = Result(PID)
     res.rules = ["C09-PROGRESS", "C09-EOF", "C09-GUARDS", "C09-CYCLES", "C09-BUDGET", "C09-EXTENDS"]
@@ -639,6 +676,9 @@ def run(repo: Repo) -> Result:
             res.sample({"rule": "C09-CYCLES", "cycle": key[:160], "bounded_by": "structural walk over the finite parsed tree / configuration"}, cap=30)
             continue
         if all(q in REVIEWED_CYCLES for q in comp) or all(".__str__" in q or q.rsplit(".", 1)[-1] in ("__str__", "_segments_str") for q in comp):
+            continue
+        if len(comp) == 1 and _descends_into_argument(repo, comp[0]):
+            res.sample({"rule": "C09-CYCLES", "cycle": key[:160], "bounded_by": "structural recursion: every recursive call receives a part of the function's own argument (loop variable over it / its children)"}, cap=30)
             continue
         res.add(
             "C09-CYCLES",
